@@ -396,7 +396,7 @@ func (c *client) sendErrorToAllEntries(err error, stopReadLoop bool) {
 	if stopReadLoop {
 		c.readLoopRunning = false
 	}
-	vh("c.deliverAll", "n", len(c.runningStepResultEntries))
+	vh("c.deliverAll", "n", len(c.runningStepResultEntries), "stop", stopReadLoop)
 	c.mutex.Unlock()
 }
 
